@@ -4,9 +4,9 @@ package rules
 // (not of one function's text) and is hooked into the property whose clause it is a necessary condition of.
 
 import (
-	"go/constant"
 	"fmt"
 	"go/ast"
+	"go/constant"
 	"go/token"
 	"go/types"
 	"sort"
@@ -548,11 +548,12 @@ func readsOtherFieldOf(v ssa.Value, elem ssa.Value, allowed string, depth int) s
 // ---------------------------------------------------------------- generated parameter decoders (C06, S2)
 
 // checkParamDecoderShapes (AST over the expansions):
-//  (a) path arguments are unescaped exactly when the router says they are still escaped: every `url.PathUnescape`
-//      in decode<Op>Params sits directly under `if argsEscaped`;
-//  (b) an object decoder (DecodeURI of a struct, the closure never reads one scalar) for form+explode or deepObject
-//      query style has the list of member names in its config: without Fields the server cannot tell the object's
-//      members from other parameters and HasParam reports it absent.
+//
+//	(a) path arguments are unescaped exactly when the router says they are still escaped: every `url.PathUnescape`
+//	    in decode<Op>Params sits directly under `if argsEscaped`;
+//	(b) an object decoder (DecodeURI of a struct, the closure never reads one scalar) for form+explode or deepObject
+//	    query style has the list of member names in its config: without Fields the server cannot tell the object's
+//	    members from other parameters and HasParam reports it absent.
 func checkParamDecoderShapes(c *core.Ctx, r *core.Rule, ex *core.Expansion) {
 	for _, fx := range ex.Fixtures {
 		p := ex.Prog.PkgBy[fx.PkgPath]
@@ -686,10 +687,11 @@ var valueAltering = map[string]bool{
 }
 
 // checkUriSidesSymmetric:
-//  (a) decoders of package uri do not normalise element values (TrimSpace, case folding …): the encoder neither
-//      refuses nor escapes such values, so the normalisation silently changes what was sent;
-//  (b) a []string that ends up in url.Values / http.Header is not a buffer of the encoder that is re-sliced to [:0]
-//      and reused: the stored slice would be overwritten by the next parameter.
+//
+//	(a) decoders of package uri do not normalise element values (TrimSpace, case folding …): the encoder neither
+//	    refuses nor escapes such values, so the normalisation silently changes what was sent;
+//	(b) a []string that ends up in url.Values / http.Header is not a buffer of the encoder that is re-sliced to [:0]
+//	    and reused: the stored slice would be overwritten by the next parameter.
 func checkUriSidesSymmetric(c *core.Ctx, r *core.Rule, prog *core.Prog) {
 	sp := prog.ByPath[pkgURI]
 	if sp == nil {
@@ -1259,7 +1261,6 @@ func checkUniquenessSetsKeepSeeds(c *core.Ctx, r *core.Rule, prog *core.Prog, pk
 	}
 }
 
-
 // sameStableLoad: two loads of one variable cell that is not stored to in the loading function.
 func sameStableLoad(a, b ssa.Value) bool {
 	la, ok1 := a.(*ssa.UnOp)
@@ -1348,7 +1349,6 @@ func checkWrapOfNilError(c *core.Ctx, r *core.Rule, prog *core.Prog, pkgs ...str
 	}
 	r.Note("errors.Wrap / Wrapf calls examined: %d", n)
 }
-
 
 // checkNameSpecialCasesOnBothSides: a parameter name that one side of package
 // uri treats specially (strings.EqualFold(name, "set-cookie"): one field line per
